@@ -179,6 +179,22 @@ def _listify(d):
     return d
 
 
+def _has_nan(obj, depth=0):
+    """obj is, or holds (tuple / frozenset / dataclass fields), a value that is not equal to itself."""
+    try:
+        if isinstance(obj, (float, complex)) or type(obj).__name__ in ('Decimal',):
+            return bool(obj != obj)
+    except Exception:
+        return False
+    if depth > 6:
+        return False
+    if isinstance(obj, (tuple, frozenset, list)):
+        return any(_has_nan(o, depth + 1) for o in obj)
+    if hasattr(obj, '__pane_info__'):
+        return any(_has_nan(getattr(obj, f.name, None), depth + 1) for f in obj.__pane_info__.fields)
+    return False
+
+
 def classify(ty, x):
     """Mechanism of a located failing witness (ty, x), or None."""
     if ty.k == 'union':
@@ -292,6 +308,11 @@ def run(ctx):
             return err is None and roundtrip(Tc, cx, cty) is not None
 
         lty, lx, path = locate(ty, x, fails)
+        if lty.k in ('dict', 'counter', 'set') and sum(1 for k_ in lx if _has_nan(k_)) >= 2:
+            # two typed keys / elements that differ only because NaN != NaN have ONE data image: such a mapping or set has no
+            # interchange form that keeps both (false alarm of sweep #7, seed 6: keys (Decimal('NaN'), PurePosixPath('.')) twice)
+            ctx.count('out_of_scope_nan_keys')
+            return
         mech = classify(lty, lx)
         lstage = stage
         if lty is not ty:
